@@ -1,9 +1,10 @@
 import ChythonModel.Py.Wire
 import ChythonModel.Model.C11Rdf
+import ChythonModel.Spec.CtfileData
 /-!
 Line-protocol driver for C11. Requests are `<op> <int> <int> …`; texts travel as code points.
 -/
-open ChythonModel.Py ChythonModel.Model.C11
+open ChythonModel.Py ChythonModel.Model.C11 ChythonModel.Spec.CtfileData
 
 abbrev P := StateT (List Int) Option
 
@@ -160,6 +161,17 @@ def handle (line : String) : String :=
           let idx := "idx " ++ showNats (starts.map (lineOffset file))
           let gets := (List.range starts.length).map fun i => s!"get {i} " ++ showR showRRec (rdfGetItem rdfReadStructure bs file i)
           pure (" | ".intercalate (steps ++ [it, idx] ++ gets))
+      | "normmeta" => run do
+          -- the specification side: domain predicates and the documented normalisation of a metadata dictionary
+          let md ← pMeta
+          let md' : Meta := md.map fun kv => (kv.1, splitNl kv.2)
+          let b (x : Bool) : String := if x then "1" else "0"
+          pure (s!"sd {b (sdMetaOk md')} rd {b (rdMetaOk md')} " ++ showMeta (normMeta md'))
+      | "v3cont" => run do
+          -- physical lines of one logical V3000 line at width w, and what the reader's joining loop makes of them
+          let w ← nextN; let s ← restStr
+          let ls := splitV30 w s
+          pure (s!"L {ls.length} " ++ " ".intercalate (ls.map showStr) ++ " J " ++ " ".intercalate ((joinLines ls []).map showStr))
       | _ => "err:op"
 
 def main : IO Unit := runDriver handle
